@@ -185,15 +185,18 @@ impl FrameWriter for QuicFrameWriter {
             frame.session_id,
             frame.len()
         );
-        let mtu = self.conn.max_datagram_size();
-        if mtu.is_none() {
-            return Err(IoError::new(
-                ErrorKind::Unsupported,
-                "Datagram not allowed for this connection",
-            ));
-        }
+        // the peer chooses this value (its max_datagram_frame_size): a fragment needs its 4 byte header and some payload
+        let mtu = match self.conn.max_datagram_size() {
+            Some(mtu) if mtu > 4 => mtu,
+            _ => {
+                return Err(IoError::new(
+                    ErrorKind::Unsupported,
+                    "Datagram not allowed for this connection",
+                ))
+            }
+        };
         let mut frame_id = NEXT_FRAME_ID.fetch_add(1, std::sync::atomic::Ordering::Relaxed);
-        let fragments = Fragments::make_fragments(mtu.unwrap(), &mut frame_id, frame);
+        let fragments = Fragments::make_fragments(mtu, &mut frame_id, frame);
         let mut len = 0;
         for fragment in fragments {
             len += fragment.len();
